@@ -36,7 +36,24 @@ func (c *WCase) knownClass() string {
 				return ""
 			}
 		}
-		return "F-STD-dict-stored-block"
+		// the finding is the standard library's own failure to round-trip THIS history: some
+		// destination of its writer, read back by its reader with the same dictionary, does not give
+		// the bytes written (the dictionary reappears in front of them).  Where the standard library
+		// round-trips, a violation on a dictionary case is not that finding.
+		dict := c.Set.Dict.Generate()
+		wr := written(d, c.Ops)
+		for i := range b.Dests {
+			if i >= len(wr) {
+				break
+			}
+			o := RunR(c.Set.API, true, b.Bytes(i), dict, SrcSpec{Kind: "bytes.Reader"}, "new", nil, "big", 0, 0)
+			if o.Panic != "" || (o.CtorErr == "" && o.Err == "EOF" && bytes.Equal(o.Bytes, wr[i])) {
+				continue
+			}
+			if len(o.Bytes) >= len(dict) && len(dict) > 0 && bytes.Equal(o.Bytes[:len(dict)], dict) || o.Err == "CHECKSUM" {
+				return "F-STD-dict-stored-block"
+			}
+		}
 	}
 	return ""
 }
@@ -139,6 +156,11 @@ var cheapKinds = []string{"tokedge", "uni1", "uni2", "uni3", "uni4", "uni6", "un
 	"run", "per1", "per2", "per3", "per4", "per7", "per31", "per64", "rnd", "zeros"}
 
 func pickData(r *Rng, s Setting, n int) DataSpec {
+	if s.Dict != nil && r.Intn(3) != 0 {
+		// data that shares its content with the preset dictionary (same generator and seed), so that
+		// matches really reach into the dictionary
+		return DataSpec{Gen: s.Dict.Gen, Seed: s.Dict.Seed, N: n}
+	}
 	k := dataKinds[r.Intn(len(dataKinds))]
 	if (k == "text" || k == "mix" || k == "uni1" || k == "uni2" || k == "uni3") && !s.Win4K && n > 30000 {
 		k = cheapKinds[r.Intn(len(cheapKinds))]
